@@ -27,9 +27,9 @@ MUTANTS = [
      "            if not self.cycles:\n                pass\n",
      'set_value skips _reset'),
     ('M02', 'C01', 'excelcompiler.py',
-     "                if (child_cell.value is not None or\n                        isinstance(child_cell, _CellRange)):\n",
-     "                if (child_cell.value is not None and\n                        not isinstance(child_cell, _CellRange)):\n",
-     '_reset does not descend through range nodes'),
+     "                if (child_cell.value is not None or child_cell.empty_result or\n                        child_cell.address.is_range):\n",
+     "                if (child_cell.value is not None or child_cell.empty_result):\n",
+     '_reset does not look behind range nodes without a value (D20 reverted)'),
     ('M03', 'C01', 'excelcompiler.py',
      "            return None if formula and self._inputs_changed else value\n",
      "            return value\n",
@@ -53,11 +53,15 @@ MUTANTS = [
     ('M08', 'C05', 'excelcompiler.py',
      "            if len(result[0]) == 1:\n                result = tuple(row[0] for row in result)\n            if len(result) == 1:\n                result = result[0]\n",
      "            if len(result) == 1:\n                result = result[0]\n            elif len(result[0]) == 1:\n                result = tuple(row[0] for row in result)\n",
-     'dimension trimming swapped'),
-    ('M09', 'C05', 'excelcompiler.py',
-     "            for range_todo in reversed(self.range_todos):\n                self._evaluate_range(range_todo)\n",
-     "            for range_todo in reversed(self.range_todos):\n                pass\n",
-     'ranges not evaluated when the graph is built'),
+     'dimension trimming swapped (1x1 range comes back as a 1-tuple)'),
+    ('M09', 'C05', 'excelwrapper.py',
+     "            self._max_col_row[sheet] = worksheet.max_column, worksheet.max_row\n",
+     "            self._max_col_row[sheet] = worksheet.max_column, max(1, worksheet.max_row - 1)\n",
+     'unbounded range clipped one row short of the used area'),
+    ('M25', 'C05', 'excelcompiler.py',
+     "            if len(result[0]) == 1:\n                result = tuple(row[0] for row in result)\n",
+     "            if len(result[0]) == 1 and len(result) == 1:\n                result = tuple(row[0] for row in result)\n",
+     'single-column ranges not flattened'),
     ('M10', 'C06', 'excelutil.py',
      "        return (self.ns.iteration_number >= self.ns.iterations or\n",
      "        return (self.ns.iteration_number > self.ns.iterations or\n",
@@ -86,14 +90,18 @@ MUTANTS = [
      "        finally:\n            self.range_todos = []\n",
      "        finally:\n            pass\n",
      'range_todos not cleared after a failure'),
-    ('M17', 'C09', 'excelutil.py',
-     "    def __exit__(self, exc_type, exc_val, exc_tb):\n        self.ns.ctx_addresses.pop()\n",
-     "    def __exit__(self, exc_type, exc_val, exc_tb):\n        if exc_type is None:\n            self.ns.ctx_addresses.pop()\n",
-     'array context not popped when the formula raises'),
+    ('M17', 'C09', 'excelcompiler.py',
+     "                        if isinstance(cell, _CycleCell):\n                            # a failed calculation is not in progress anymore\n                            cell.wip = False\n",
+     "                        pass\n",
+     'work-in-progress flag not cleared after a failure (D7 reverted)'),
     ('M18', 'C09', 'excelformula.py',
-     "                del error_messages[:]\n",
-     "                pass\n",
-     'captured error messages not cleared (D8 half reverted)'),
+     "                del error_messages[:]\n                capture_error_state(exc, msg)\n",
+     "                capture_error_state(exc, msg)\n                assert 1 == len(error_messages)\n",
+     'assert on the error list instead of clearing it (D8 reverted)'),
+    ('M26', 'C09', 'excelformula.py',
+     "            except RecursionError as exc:\n",
+     "            except (RecursionError, ZeroDivisionError, KeyError) as exc:\n",
+     'some plugin exceptions surface as a bare RecursionError instead of FormulaEvalError'),
     ('M19', 'C12', 'excelcompiler.py',
      "                    if not (original_value is None or\n                            cell.close_enough(original_value, tol=tolerance)):\n",
      "                    if not (original_value is None or isinstance(original_value, str) or\n                            cell.close_enough(original_value, tol=tolerance)):\n",
